@@ -416,6 +416,10 @@ func inMon(t *Thread, fn *ssa.Function, args []Value, pos token.Pos) Value {
 		t.vcAll = append(t.vcAll, 0)
 	}
 	t.vcAll[t.id]++
+	// the monitor body runs atomically inside this transition (it must not contain visible operations)
+	t.inMon = true
+	t.callClosure(args[0], nil, pos)
+	t.inMon = false
 	return nil
 }
 
